@@ -1,6 +1,10 @@
 #!/bin/bash
 # usage: run_mutant.sh <patch> <prop> [tier]   -- apply to /repo, run the check, undo
+# The evidence file and replays of the run against the changed tree are not kept:
+# evidence/<id>.json always describes the last run on the real tree.
 P=$1; PROP=$2; TIER=${3:-quick}
 cd /repo && git apply $P || { echo "APPLY FAILED $P"; exit 2; }
+cp /verif/evidence/$PROP.json /verif/evidence/.$PROP.keep 2>/dev/null
 cd /verif && ./check $PROP --tier $TIER 2>&1 | grep -E "^VIOLATION|^KNOWN|quick:|thorough:|PROOF BUILD" | head -6
 git -C /repo checkout -- .
+[ -f /verif/evidence/.$PROP.keep ] && mv /verif/evidence/.$PROP.keep /verif/evidence/$PROP.json
